@@ -162,6 +162,26 @@ func (rw *Rewriter) InlineRefs() {
 	c := rw.C
 	d := c.Doc
 	rw.schemaSites(func(s *Schema, pos, path string, set func(*Schema)) {
+		// the nullable-reference idiom ({nullable: true, allOf: [{$ref: X}]}) is "X or null":
+		// its inline form is a copy of X marked nullable
+		if s.Ref == "" && s.Nullable && len(s.AllOf) == 1 && s.AllOf[0].Ref != "" && s.Type == "" && len(s.OneOf) == 0 && len(s.Properties) == 0 && pos == "property" {
+			if target := d.ResolveSchema(s.AllOf[0]); target != nil && target.Type == "object" && len(target.Properties) > 0 && target.AdditionalProperties == nil && !strings.Contains(path, ".allOf[") {
+				cp := cloneSchema(target)
+				cp.Nullable = true
+				// (an inline object property with nested inline objects is named without a
+				// unique prefix - known C01 finding: flat targets only)
+				flat := true
+				for _, ps := range cp.Properties {
+					if ps.Ref == "" && (ps.Type == "object" || ps.Type == "array" || len(ps.AllOf)+len(ps.OneOf) > 0) {
+						flat = false
+					}
+				}
+				if flat && c.AllowSchema(cp, pos) && rw.decide(Site{Kind: "schema", Pos: pos + ":nullable-ref-idiom", Path: path}) {
+					set(cp)
+				}
+			}
+			return
+		}
 		if s.Ref == "" {
 			return
 		}
